@@ -589,10 +589,17 @@ impl App for StdApp {
                 Event::DatagramsUnblocked => self.dgram_blocked = false,
                 Event::Stream(se) => match se {
                     StreamEvent::Opened { dir } => {
+                        let mut n = 0u32;
                         while let Some(id) = cx.conn.streams().accept(dir) {
                             did = true;
                             self.incoming.push(id);
                             self.readable.push(id);
+                            n += 1;
+                            if n >= 20_000 {
+                                // no configuration of the harness grants that many streams
+                                self.obs.violations.push(format!("accept({dir:?}) yielded {n} streams in a row (last {id}): more than any stream-count limit granted"));
+                                break;
+                            }
                         }
                     }
                     StreamEvent::Readable { id } => {
